@@ -75,6 +75,11 @@ pub(crate) fn write_bundle_v1(
     Ok(artifact_id)
 }
 
+/// Whether `artifact_id` names a blob in the workspace artifact store.
+pub(crate) fn artifact_exists(workspace_root: &Path, artifact_id: &str) -> bool {
+    !artifact_id.is_empty() && artifacts_blobs_dir(workspace_root).join(artifact_id).is_file()
+}
+
 fn artifacts_blobs_dir(workspace_root: &Path) -> PathBuf {
     workspace_root.join(".rip").join("artifacts").join("blobs")
 }
